@@ -24,6 +24,8 @@ FLOORS = {"quick": {"int_delivered": 5000, "int_refused": 1000, "int_discarded":
 # floors for the situations added with the later rounds of seeded changes (evidence that they were really exercised)
 FLOORS["quick"].update({'interrupts_issued_from_plain_callbacks': 1800, 'interrupt_ops_with_interrupt_object_as_cause': 6000})
 FLOORS["thorough"].update({'interrupts_issued_from_plain_callbacks': 9000, 'interrupt_ops_with_interrupt_object_as_cause': 30000})
+FLOORS["quick"].update({'programs_on_realtime_environment': 600, 'with_block_interrupt_probes': 14})
+FLOORS["thorough"].update({'programs_on_realtime_environment': 3000, 'with_block_interrupt_probes': 14})
 PROFILE = {"weights": {"timeout": 5, "zero": 1, "wait": 3, "succeed": 2, "fail": 0.5, "spawn": 1.5, "join": 2,
                        "interrupt": 6, "cb": 0.3, "cond": 1.5, "cbint": 1.2, "chain": 0.2},
            "min_top": 2, "max_top": 6, "max_child_scripts": 2, "min_ev": 1, "max_ev": 3, "p_exact": 0.85,
